@@ -227,6 +227,7 @@ def run(ctx):
     from . import common
     common.reconstruction_is_uncached(ctx, 'C07.R2')
     common.version_group_setters_total(ctx, 'C07.R2')
+    common.entity_getters_hand_out_copies(ctx, 'C07.R4')
     common.copies_are_deep(ctx, 'C07.R4')   # a state object selected under the lock does not share values with a later copy
     # ---------------------------------------------------------------- R3
     tm = repo.func('sdc11073.mdib.providermdib.ProviderMdib._transaction_manager')
